@@ -118,6 +118,39 @@ func vh_C03_step_add() {
 	vxZeroPadding(m.Raw, n, "after Add")
 }
 
+// Add on a message that was decoded from a buffer with bytes after the declared length (a state Decode
+// produces and tolerates): the appended TLV ends the message, whatever lay behind it before.
+func vh_C03_step_add_trailing() {
+	vxUnwind(1, true)
+	raw := vxRawBuf()
+	m := &Message{Raw: raw}
+	if m.Decode() != nil {
+		return
+	}
+	vxUnwind(vxLoopBound, false)
+	vxAssume(raw[0]>>6 == 0)
+	vxAssume(int(m.Length)%4 == 0)
+	vxAssume(int(m.Length) <= 60000)
+	trailing := len(raw) - messageHeaderSize - int(m.Length)
+	if trailing > 0 {
+		vxReach("trailing-bytes")
+	}
+	n := vxLen(40)
+	if trailing > 4+(n+3)&^3 {
+		vxReach("more-trailing-than-appended")
+	}
+	t, v := AttrType(vxU16()), vxBytes(n, n)
+	first := messageHeaderSize + int(m.Length)
+	m.Add(t, v)
+	vxCheckInv(m, 2, "after Add on a message decoded with trailing bytes")
+	vxAssert(len(m.Raw) == first+4+(n+3)&^3, "Add ends the message after the appended TLV (trailing bytes of the decoded buffer are dropped)")
+	last := m.Attributes[len(m.Attributes)-1]
+	vxAssert(last.Type == t && int(last.Length) == n && len(last.Value) == n, "the new attribute has the given type and length (after trailing bytes)")
+	wv := vxWitness(n)
+	vxAssert(vxImplies(wv < n, vxAt(m.Raw, first+4+wv) == vxAt(v, wv)), "the new attribute carries the given value (after trailing bytes)")
+	vxZeroPadding(m.Raw, n, "after Add on a message decoded with trailing bytes")
+}
+
 func vh_C03_step_header() {
 	k := vxK(1, 2)
 	m, ok := vxBuiltState(k)
